@@ -240,6 +240,22 @@ func main() {
 		return strings.Join(ks, ",")
 	}
 	o.def("leptondHeaderKeys", "String", lstr(keys(funcDecl(ldMain, "sendCameraSpecs"))), "leptond sendCameraSpecs: headers.* keys written")
+	// ... and the value given to each key
+	ldVals := "<missing>"
+	if fd := funcDecl(ldMain, "sendCameraSpecs"); fd != nil {
+		if n := find(fd, func(n ast.Node) bool {
+			cl, ok := n.(*ast.CompositeLit)
+			return ok && strings.HasPrefix(src(cl.Type), "map[string]")
+		}); n != nil {
+			var parts []string
+			for _, e := range n.(*ast.CompositeLit).Elts {
+				parts = append(parts, strings.Join(strings.Fields(src(e)), ""))
+			}
+			sort.Strings(parts)
+			ldVals = strings.Join(parts, ";")
+		}
+	}
+	o.def("leptondHeaderValues", "String", lstr(ldVals), "leptond sendCameraSpecs: the header map literal")
 	rk := map[string]bool{}
 	if rh := funcDecl(hdrInfo, "ReadHeaderInfo"); rh != nil {
 		for _, n := range findAll(rh, func(n ast.Node) bool { _, ok := n.(*ast.IndexExpr); return ok }) {
@@ -326,6 +342,35 @@ func main() {
 	o.def("constRecStopTest", "String", lstr(condOf(procGo, "processConstantRecorder", "crFrames >")), "processConstantRecorder: when the continuous file is cut")
 	o.def("windowGate", "String", lstr(condOf(procGo, "canStartWriting", "window")), "canStartWriting: the window test")
 	o.def("triggerTest", "String", lstr(condOf(procGo, "process", "triggerFrames")), "process: the trigger-frames test")
+
+	// ---- recorder/recorderconfig.go: how config.toml becomes the recorder's settings (C03, C04)
+	rcGo := parse(repo, "recorder/recorderconfig.go")
+	winArgs := "<missing>"
+	if fd := funcDecl(rcGo, "NewConfig"); fd != nil {
+		if n := find(fd, func(n ast.Node) bool { _, ok := isCall(n, "window.New"); return ok }); n != nil {
+			var parts []string
+			for _, a := range n.(*ast.CallExpr).Args {
+				parts = append(parts, src(a))
+			}
+			winArgs = strings.Join(parts, ";")
+		}
+	}
+	o.def("windowCtorArgs", "String", lstr(winArgs), "recorder.NewConfig: arguments of window.New")
+	rcFields := "<missing>"
+	if fd := funcDecl(rcGo, "NewConfig"); fd != nil {
+		if n := find(fd, func(n ast.Node) bool {
+			cl, ok := n.(*ast.CompositeLit)
+			return ok && src(cl.Type) == "RecorderConfig"
+		}); n != nil {
+			var parts []string
+			for _, e := range n.(*ast.CompositeLit).Elts {
+				parts = append(parts, strings.Join(strings.Fields(src(e)), ""))
+			}
+			rcFields = strings.Join(parts, ";")
+		}
+	}
+	o.def("recorderConfigFields", "String", lstr(rcFields), "recorder.NewConfig: the RecorderConfig literal")
+	o.def("recorderConfigValidate", "String", lstr(condOf(rcGo, "validate", "MaxSecs")), "RecorderConfig.validate: the rejected case")
 
 	// ---- main.go wiring (C05, C11)
 	o.def("throttleGuardExpr", "String", lstr(condOf(trMain, "handleConn", "Throttler")), "handleConn: condition under which the throttle wraps the recorder")
